@@ -63,6 +63,7 @@ fn main() {
     "c15" => props::c15::run(&cfg),
     "c02" => props::c02::run(&cfg),
     "c14" => props::c14::run(&cfg),
+    "c07" => props::c07::run(&cfg),
     _ => {
       eprintln!("unknown property {}", prop);
       std::process::exit(2);
